@@ -7,6 +7,7 @@ ones; the list is unique; two assignments encoding the same list agree on the gr
 import Lemmas.FamMapping
 namespace Cnfgen
 namespace Fam
+namespace G2
 open Vars
 
 /-- image of `i` (1-based) under the table `l` -/
@@ -234,5 +235,6 @@ theorem pairwise_img_iff {l : List Nat} {k : Nat} (hlen : l.length = k) (R : Nat
     rw [img_eq h1 (by omega), img_eq (by omega) (by omega)]
     exact h (i - 1) (i' - 1) (by omega) (by omega) (by omega)
 
+end G2
 end Fam
 end Cnfgen
